@@ -37,6 +37,7 @@ func (e *Exec) envIntrinsic(caller *frame, name string, args []Value) (Value, bo
 		}
 		am := &analysisModel{ops: args[0].(*Map)}
 		e.analyzers[p] = am
+		e.lastAnalyzer = p
 		e.run.noteStub("analysis.Spec: operations index supplied by the harness (Operations, OperationFor, SafeParamsFor, ParamsFor, OperationIDs)")
 		return p, true
 	}
@@ -87,6 +88,63 @@ func registerEnvStubs() {
 			}
 		}
 		return out
+	}
+	externals["github.com/go-openapi/analysis.New"] = func(e *Exec, c *frame, a []Value) Value {
+		// contract: the analyser of the harness's document is the one the harness registered
+		if e.lastAnalyzer == nil {
+			panic(abort("analysis.New without a harness-registered analyser model"))
+		}
+		return e.lastAnalyzer
+	}
+	for _, n := range []string{"AllRefs", "AllParameterReferences", "AllResponseReferences", "AllDefinitionReferences"} {
+		n := n
+		externals[an+n] = func(e *Exec, c *frame, a []Value) Value {
+			e.run.noteStub("analysis.Spec." + n + ": empty (reference-free document)")
+			return []Value{}
+		}
+	}
+	externals["(*github.com/go-openapi/loads.Document).Expanded"] = func(e *Exec, c *frame, a []Value) Value {
+		e.run.noteStub("loads.Document.Expanded: the reference-free document itself")
+		return Tuple{a[0], Iface{}}
+	}
+	externals["encoding/json.Unmarshal"] = func(e *Exec, c *frame, a []Value) Value {
+		e.run.noteStub("json.Unmarshal(doc.Raw()): yields an empty JSON object (the harness's Swagger schema is the empty schema)")
+		dst := a[1].(Iface).V.(*Value)
+		e.mapSeq++
+		*dst = Iface{T: types.NewMap(types.Typ[types.String], types.NewInterfaceType(nil, nil)), V: &Map{KT: types.Typ[types.String], VT: types.NewInterfaceType(nil, nil), id: e.mapSeq}}
+		return Iface{}
+	}
+	externals[an+"OperationIDs"] = func(e *Exec, c *frame, a []Value) Value {
+		// contract: the ids of all operations (empty ones included), in map order
+		ops := e.analyzers[a[0].(*Value)].ops
+		out := []Value{}
+		opT := e.specType("Operation").Underlying().(*types.Struct)
+		itM := e.rangeIter(ops, nil).(*mapIter)
+		for {
+			t := itM.next(e)
+			if !t[0].(*Term).b() {
+				break
+			}
+			itP := e.rangeIter(t[2].(*Map), nil).(*mapIter)
+			for {
+				u := itP.next(e)
+				if !u[0].(*Term).b() {
+					break
+				}
+				op := u[2].(*Value)
+				out = append(out, fieldByName((*op).(Structure), opT, "OperationProps", "ID"))
+			}
+		}
+		return out
+	}
+	externals["github.com/go-openapi/validate.deepCloneSchema"] = func(e *Exec, c *frame, a []Value) Value {
+		e.run.noteStub("deepCloneSchema (gob round trip): engine deep copy")
+		return Tuple{e.deepCopy(a[0], map[*Value]*Value{}), Iface{}}
+	}
+	externals["github.com/go-openapi/swag.ToDynamicJSON"] = func(e *Exec, c *frame, a []Value) Value {
+		e.run.noteStub("swag.ToDynamicJSON: returns an opaque empty JSON object (the harness's parameter schema accepts anything)")
+		e.mapSeq++
+		return Iface{T: types.NewMap(types.Typ[types.String], types.NewInterfaceType(nil, nil)), V: &Map{KT: types.Typ[types.String], VT: types.NewInterfaceType(nil, nil), id: e.mapSeq}}
 	}
 	externals[an+"SafeParamsFor"] = paramsFor
 	externals[an+"ParamsFor"] = paramsFor
@@ -145,4 +203,62 @@ func registerCtxStubs() {
 		parent, _ := a[0].(Iface).V.(*ctxNode)
 		return ctxIface(&ctxNode{parent: parent, key: a[1].(Iface), val: a[2].(Iface)})
 	}
+}
+
+// deepCopy clones a value graph (pointers, slices, maps followed; scalars shared).
+func (e *Exec) deepCopy(v Value, seen map[*Value]*Value) Value {
+	switch x := v.(type) {
+	case Structure:
+		c := make(Structure, len(x))
+		for i := range x {
+			c[i] = e.deepCopy(x[i], seen)
+		}
+		return c
+	case Array:
+		c := make(Array, len(x))
+		for i := range x {
+			c[i] = e.deepCopy(x[i], seen)
+		}
+		return c
+	case *Value:
+		if x == nil {
+			return x
+		}
+		if p, ok := seen[x]; ok {
+			return p
+		}
+		var z Value
+		p := &z
+		seen[x] = p
+		*p = e.deepCopy(*x, seen)
+		return p
+	case []Value:
+		if x == nil {
+			return x
+		}
+		c := make([]Value, len(x), cap(x))
+		for i := range x {
+			c[i] = e.deepCopy(x[i], seen)
+		}
+		return c
+	case *Map:
+		if x == nil {
+			return x
+		}
+		e.mapSeq++
+		c := &Map{KT: x.KT, VT: x.VT, id: e.mapSeq}
+		for i, k := range x.Keys {
+			if k != nil {
+				c.Keys = append(c.Keys, k)
+				c.Vals = append(c.Vals, e.deepCopy(x.Vals[i], seen))
+			}
+		}
+		return c
+	case Iface:
+		if x.T == nil {
+			return x
+		}
+		return Iface{T: x.T, V: e.deepCopy(x.V, seen)}
+	}
+	return v
 }
